@@ -14,26 +14,62 @@ func verifIn(k int, ks []int) bool {
 	return false
 }
 
+// verifAccepts: reference for "the declared parameter (kind set dk) accepts class c".
+func verifAccepts(dk []int, c int) bool {
+	return verifIn(c, dk) || verifIn(base.VkUntyped, dk)
+}
+
+func verifFree(ks []int) bool {
+	return verifIn(base.VkUntyped, ks) || verifIn(base.VkUnknown, ks) || verifIn(base.VkBlock, ks)
+}
+
+// VerifCheckArgType: C07/C08 kernel. Parameter: scalar or union of <= 3 kinds out of the 11
+// value kinds + untyped; argument: scalar or union of <= n kinds out of those + unknown + block.
+// Reference (from the property statement): certainly fits = every possible class of the
+// argument is accepted; certainly fails = every possible class is rejected.
 func VerifCheckArgType(n int) {
-	def := base.VerifSymUnion("d", 3)
-	arg := base.VerifSymUnion("a", 2)
+	def, dk := base.VerifSymT("d", 3, base.VkUntyped)
+	arg, ak := base.VerifSymT("a", n, base.VkBlock)
+	verifapi.Witness("param", base.VerifKindList(dk))
+	verifapi.Witness("arg", base.VerifKindList(ak))
 	m := &MethodEvaluator{method: "m"}
 	err := checkArgType(m, "C", def, arg)
-
-	dk, ak := base.VerifKinds(def), base.VerifKinds(arg)
+	verifapi.Reach("checked")
+	if verifFree(ak) {
+		// untyped / unknown / block arguments: no possible-class claim
+		return
+	}
 	all, none := true, true
 	for _, k := range ak {
-		if verifIn(k, dk) {
+		if verifAccepts(dk, k) {
 			none = false
 		} else {
 			all = false
 		}
 	}
-	verifapi.Reach("checked")
+	shape := "arg=" + base.VerifShape(ak) + "/param=" + base.VerifShape(dk)
 	if all {
+		rel := "same-kind-set"
+		for _, k := range dk {
+			if !verifIn(k, ak) {
+				rel = "arg-strict-subset-of-param"
+			}
+		}
+		cls := "C08/fits-but-rejected/" + shape + "/" + rel
+		if len(ak) > 1 && len(dk) > 1 && rel == "arg-strict-subset-of-param" {
+			cls = "C08/fits-but-rejected/union-arg-strict-subset-of-union-param"
+		}
+		verifapi.Classify(cls)
 		verifapi.Assert(err == nil, "C08-fits-but-rejected")
 	}
 	if none {
+		cls := "C07/misfit-but-accepted/" + shape + "/plain"
+		argObj := verifIn(base.VkObjA, ak) || verifIn(base.VkObjB, ak)
+		defObj := verifIn(base.VkObjA, dk) || verifIn(base.VkObjB, dk)
+		if argObj && defObj && (len(ak) > 1 || len(dk) > 1) {
+			cls = "C07/misfit-but-accepted/object-of-another-class-inside-union"
+		}
+		verifapi.Classify(cls)
 		verifapi.Assert(err != nil, "C07-misfit-but-accepted")
 	}
 }
